@@ -1,1 +1,409 @@
-// harness stub
+//! C10 harness (child module of `astria_conductor::executor`, compiled only with `--features verif` in test builds).
+//!
+//! The real executor event loop (`Initialized::run`) is built on harness-owned block channels (no readers) and driven
+//! with delivery words over soft / firm blocks (firm first, long soft leads, duplicates, stale, out-of-order), against a
+//! real tonic `ExecutionService` server on loopback that records every ExecuteBlock / UpdateCommitmentState it sees
+//! (optionally answering with a delay). /verif/lib/checkers/c10.py judges the recorded RPC log.
+#![allow(clippy::pedantic, clippy::arithmetic_side_effects, dead_code, unused_imports)]
+
+#[path = "/verif/harness/common/vlog.rs"]
+mod vlog;
+
+use std::{
+    collections::HashMap,
+    sync::{
+        atomic::{
+            AtomicU64,
+            Ordering,
+        },
+        Arc,
+        Mutex,
+    },
+    time::Duration,
+};
+
+use astria_core::{
+    execution::v2::ExecutionSession,
+    generated::astria::execution::v2 as raw,
+    primitive::v1::RollupId,
+    protocol::test_utils::ConfigureSequencerBlock,
+    sequencerblock::v1::block,
+    Protobuf as _,
+};
+use rand::{
+    Rng as _,
+    SeedableRng as _,
+};
+use rand_chacha::ChaChaRng;
+use serde_json::json;
+use telemetry::Metrics as _;
+use tokio_util::{
+    sync::CancellationToken,
+    task::JoinMap,
+};
+use vlog::VLog;
+
+use super::{
+    create_block_channels,
+    Channels,
+    Client,
+    Initialized,
+};
+use crate::{
+    celestia::ReconstructedBlock,
+    config::CommitLevel,
+    state::State,
+    Config,
+    Metrics,
+};
+
+const ROLLUP: [u8; 32] = [24; 32];
+
+#[derive(Default)]
+struct RollupLog {
+    events: Vec<serde_json::Value>,
+    by_hash: HashMap<String, u64>, // rollup block hash -> number
+    counter: u64,
+    delay_ms: u64,
+}
+
+#[derive(Clone)]
+struct FakeRollup {
+    inner: Arc<Mutex<RollupLog>>,
+    in_flight: Arc<AtomicU64>,
+    calls: Arc<AtomicU64>,
+}
+
+#[async_trait::async_trait]
+impl raw::execution_service_server::ExecutionService for FakeRollup {
+    async fn create_execution_session(
+        self: Arc<Self>,
+        _: tonic::Request<raw::CreateExecutionSessionRequest>,
+    ) -> Result<tonic::Response<raw::ExecutionSession>, tonic::Status> {
+        Err(tonic::Status::unimplemented("not used by the harness"))
+    }
+
+    async fn get_executed_block_metadata(
+        self: Arc<Self>,
+        req: tonic::Request<raw::GetExecutedBlockMetadataRequest>,
+    ) -> Result<tonic::Response<raw::ExecutedBlockMetadata>, tonic::Status> {
+        self.calls.fetch_add(1, Ordering::SeqCst);
+        let mut g = self.inner.lock().unwrap();
+        let number = match req.get_ref().identifier.as_ref().and_then(|i| i.identifier.clone()) {
+            Some(raw::executed_block_identifier::Identifier::Number(n)) => Some(n),
+            _ => None,
+        };
+        // blocks executed in an earlier session (the genesis chain g0..g{soft0}) and blocks executed in this one
+        let found = number.and_then(|n| g.by_hash.iter().find(|(_, v)| **v == n).map(|(h, _)| (n, h.clone())));
+        g.events.push(json!({"rpc": "get_executed_block_metadata", "number": number, "found": found.as_ref().map(|f| f.1.clone())}));
+        match found {
+            Some((n, h)) => Ok(tonic::Response::new(meta(n, &h, ""))),
+            None => Err(tonic::Status::not_found("no such block")),
+        }
+    }
+
+    async fn execute_block(
+        self: Arc<Self>,
+        req: tonic::Request<raw::ExecuteBlockRequest>,
+    ) -> Result<tonic::Response<raw::ExecuteBlockResponse>, tonic::Status> {
+        self.in_flight.fetch_add(1, Ordering::SeqCst);
+        self.calls.fetch_add(1, Ordering::SeqCst);
+        let r = req.into_inner();
+        let (delay, meta) = {
+            let mut g = self.inner.lock().unwrap();
+            g.counter += 1;
+            let parent_number = g.by_hash.get(&r.parent_hash).copied();
+            let number = parent_number.map_or(1_000_000 + g.counter, |n| n + 1);
+            let hash = format!("x{:04}", g.counter);
+            g.by_hash.insert(hash.clone(), number);
+            let meta = raw::ExecutedBlockMetadata {
+                number,
+                hash: hash.clone(),
+                parent_hash: r.parent_hash.clone(),
+                timestamp: r.timestamp.clone(),
+                sequencer_block_hash: r.sequencer_block_hash.clone(),
+            };
+            g.events.push(json!({"rpc": "execute_block", "parent_hash": r.parent_hash, "parent_known": parent_number.is_some(), "session": r.session_id,
+                "sequencer_block_hash": r.sequencer_block_hash, "n_txs": r.transactions.len(), "returned_number": number, "returned_hash": hash}));
+            (g.delay_ms, meta)
+        };
+        if delay > 0 {
+            tokio::time::sleep(Duration::from_millis(delay)).await;
+        }
+        self.in_flight.fetch_sub(1, Ordering::SeqCst);
+        Ok(tonic::Response::new(raw::ExecuteBlockResponse { executed_block_metadata: Some(meta) }))
+    }
+
+    async fn update_commitment_state(
+        self: Arc<Self>,
+        req: tonic::Request<raw::UpdateCommitmentStateRequest>,
+    ) -> Result<tonic::Response<raw::CommitmentState>, tonic::Status> {
+        self.in_flight.fetch_add(1, Ordering::SeqCst);
+        self.calls.fetch_add(1, Ordering::SeqCst);
+        let r = req.into_inner();
+        let cs = r.commitment_state.clone().unwrap_or_default();
+        let delay = {
+            let mut g = self.inner.lock().unwrap();
+            let m = |x: &Option<raw::ExecutedBlockMetadata>| x.as_ref().map(|b| json!({"number": b.number, "hash": b.hash, "sequencer_block_hash": b.sequencer_block_hash}));
+            g.events.push(json!({"rpc": "update_commitment_state", "session": r.session_id, "firm": m(&cs.firm_executed_block_metadata),
+                "soft": m(&cs.soft_executed_block_metadata), "lowest_celestia_search_height": cs.lowest_celestia_search_height}));
+            g.delay_ms
+        };
+        if delay > 0 {
+            tokio::time::sleep(Duration::from_millis(delay)).await;
+        }
+        self.in_flight.fetch_sub(1, Ordering::SeqCst);
+        Ok(tonic::Response::new(cs))
+    }
+}
+
+fn seq_hash(height: u64) -> [u8; 32] {
+    use sha2::Digest as _;
+    sha2::Sha256::digest(height.to_le_bytes()).into()
+}
+
+fn meta(number: u64, hash: &str, parent: &str) -> raw::ExecutedBlockMetadata {
+    raw::ExecutedBlockMetadata {
+        number,
+        hash: hash.to_string(),
+        parent_hash: parent.to_string(),
+        timestamp: Some(pbjson_types::Timestamp { seconds: 1, nanos: 0 }),
+        sequencer_block_hash: String::new(),
+    }
+}
+
+fn config(level: CommitLevel, url: &str) -> Config {
+    Config {
+        celestia_block_time_ms: 12000,
+        celestia_node_http_url: "http://127.0.0.1:1".into(),
+        no_celestia_auth: true,
+        celestia_bearer_token: String::new(),
+        sequencer_grpc_url: "http://127.0.0.1:1".into(),
+        sequencer_cometbft_url: "http://127.0.0.1:1".into(),
+        sequencer_requests_per_second: 500,
+        sequencer_block_time_ms: 2000,
+        execution_rpc_url: url.into(),
+        log: "off".into(),
+        execution_commit_level: level,
+        force_stdout: false,
+        no_otel: true,
+        no_metrics: true,
+        metrics_http_listener_addr: String::new(),
+    }
+}
+
+fn soft_block(height: u64) -> astria_core::sequencerblock::v1::block::FilteredSequencerBlock {
+    ConfigureSequencerBlock {
+        block_hash: Some(block::Hash::new(seq_hash(height))),
+        chain_id: Some("verif-seq".to_string()),
+        height: height as u32,
+        sequence_data: vec![(RollupId::new(ROLLUP), format!("tx@{height}").into_bytes())],
+        unix_timestamp: (1i64, 1u32).into(),
+        ..Default::default()
+    }
+    .make()
+    .into_filtered_block([RollupId::new(ROLLUP)])
+}
+
+fn firm_block(height: u64) -> Box<ReconstructedBlock> {
+    let b = ConfigureSequencerBlock {
+        block_hash: Some(block::Hash::new(seq_hash(height))),
+        chain_id: Some("verif-seq".to_string()),
+        height: height as u32,
+        sequence_data: vec![(RollupId::new(ROLLUP), format!("tx@{height}").into_bytes())],
+        unix_timestamp: (1i64, 1u32).into(),
+        ..Default::default()
+    }
+    .make();
+    Box::new(ReconstructedBlock {
+        celestia_height: 100 + height,
+        block_hash: *b.block_hash(),
+        header: b.header().clone(),
+        // what the Celestia rollup blob carries: the encoded RollupData items of this rollup
+        transactions: b.rollup_transactions().get(&RollupId::new(ROLLUP)).map(|t| t.transactions().to_vec()).unwrap_or_default(),
+        extended_commit_info: None,
+    })
+}
+
+/// One delivery word against one fresh executor. Symbols: ('S'|'F', offset from the first expected sequencer height).
+async fn run_word(log: &VLog, rollup: &FakeRollup, url: &str, level: CommitLevel, firm0: u64, soft0: u64, lookahead: u64, word: &[(char, i64)], delay_ms: u64, mode: &str) {
+    // reset the fake rollup: genesis chain g1..g{soft0}
+    {
+        let mut g = rollup.inner.lock().unwrap();
+        *g = RollupLog::default();
+        g.delay_ms = delay_ms;
+        for n in 0..=soft0 {
+            g.by_hash.insert(format!("g{n}"), n);
+        }
+    }
+    let rollup_start = 1u64;
+    let seq_start = 10u64;
+    let session = ExecutionSession::try_from_raw(raw::ExecutionSession {
+        session_id: "verif".into(),
+        execution_session_parameters: Some(raw::ExecutionSessionParameters {
+            rollup_id: Some(RollupId::new(ROLLUP).into_raw()),
+            rollup_start_block_number: rollup_start,
+            rollup_end_block_number: 0,
+            sequencer_chain_id: "verif-seq".into(),
+            sequencer_start_block_height: seq_start,
+            celestia_chain_id: "verif-cel".into(),
+            celestia_search_height_max_look_ahead: lookahead,
+        }),
+        commitment_state: Some(raw::CommitmentState {
+            soft_executed_block_metadata: Some(meta(soft0, &format!("g{soft0}"), &format!("g{}", soft0.saturating_sub(1)))),
+            firm_executed_block_metadata: Some(meta(firm0, &format!("g{firm0}"), &format!("g{}", firm0.saturating_sub(1)))),
+            lowest_celestia_search_height: 1,
+        }),
+    })
+    .unwrap();
+    let state = match State::try_from_execution_session(&session, level) {
+        Ok(s) => s,
+        Err(e) => {
+            log.ev(json!({"kind": "word_skipped", "why": format!("{e}")}));
+            return;
+        }
+    };
+    let (state_tx, _state_rx) = crate::state::channel(state);
+    let first_soft = state_tx.next_expected_soft_sequencer_height().value();
+    let first_firm = state_tx.next_expected_firm_sequencer_height().value();
+    let Channels { firm_sender, firm_receiver, soft_sender, soft_receiver } = match create_block_channels(level, &state_tx) {
+        Ok(c) => c,
+        Err(e) => {
+            log.ev(json!({"kind": "word_skipped", "why": format!("{e}")}));
+            return;
+        }
+    };
+    let metrics: &'static Metrics = Box::leak(Box::new(Metrics::noop_metrics(&()).unwrap()));
+    let init = Initialized {
+        config: config(level, url),
+        client: Client::connect_lazy(url).unwrap(),
+        firm_blocks: firm_receiver,
+        soft_blocks: soft_receiver,
+        shutdown: CancellationToken::new(),
+        state: state_tx,
+        blocks_pending_finalization: HashMap::new(),
+        metrics,
+        reader_tasks: JoinMap::new(),
+        reader_cancellation_token: CancellationToken::new(),
+    };
+    let handle = tokio::spawn(init.run());
+    let base = if level == CommitLevel::FirmOnly { first_firm } else { first_soft.min(first_firm) } as i64;
+    let mut deliveries = vec![];
+    for (kind, off) in word {
+        let h = (base + off).max(1) as u64;
+        let calls_before = rollup.calls.load(Ordering::SeqCst);
+        let sent = if *kind == 'S' {
+            soft_sender.try_send(soft_block(h)).is_ok()
+        } else {
+            firm_sender.try_send(firm_block(h)).is_ok()
+        };
+        // the position in the server's log at which this delivery was made
+        let at = rollup.inner.lock().unwrap().events.len();
+        deliveries.push(json!([kind.to_string(), h, sent, at]));
+        // quiescence: no RPC in flight and no new RPC for a few polls (bounded; a blocked soft block simply stays queued)
+        let mut stable = 0;
+        let mut last = rollup.calls.load(Ordering::SeqCst);
+        for i in 0..400 {
+            tokio::time::sleep(Duration::from_millis(1)).await;
+            let now = rollup.calls.load(Ordering::SeqCst);
+            let idle = rollup.in_flight.load(Ordering::SeqCst) == 0 && now == last;
+            last = now;
+            stable = if idle { stable + 1 } else { 0 };
+            let drained = soft_sender.capacity() == soft_sender.max_capacity() && firm_sender.capacity() == firm_sender.max_capacity();
+            if handle.is_finished() || (stable >= 4 && (drained || now > calls_before || i > 30)) {
+                break;
+            }
+        }
+    }
+    drop(soft_sender);
+    drop(firm_sender);
+    let outcome = match tokio::time::timeout(Duration::from_secs(5), handle).await {
+        Ok(Ok(Ok(_))) => "stopped_ok".to_string(),
+        Ok(Ok(Err(e))) => format!("stopped_err:{}", format!("{e:#}").chars().take(140).collect::<String>()),
+        Ok(Err(e)) => format!("task_panicked:{e}"),
+        Err(_) => "watchdog".to_string(),
+    };
+    let events = std::mem::take(&mut rollup.inner.lock().unwrap().events);
+    log.ev(json!({"kind": "exec_word", "mode": mode, "level": format!("{level:?}"), "firm0": firm0, "soft0": soft0, "lookahead": lookahead, "delay_ms": delay_ms,
+        "first_expected_soft": first_soft, "first_expected_firm": first_firm, "seq_start": seq_start, "rollup_start": rollup_start,
+        "deliveries": deliveries, "rpcs": events, "outcome": outcome,
+        "seq_hash": (base - 2..base + 60).map(|h| json!([h, vlog::hex(&seq_hash(h.max(0) as u64))])).collect::<Vec<_>>()}));
+}
+
+#[tokio::test(flavor = "multi_thread", worker_threads = 3)]
+async fn delivery_words() {
+    let log = VLog::open("c10-executor");
+    let (shard, shards) = vlog::shard();
+    let rollup = FakeRollup { inner: Arc::new(Mutex::new(RollupLog::default())), in_flight: Arc::new(AtomicU64::new(0)), calls: Arc::new(AtomicU64::new(0)) };
+    let listener = tokio::net::TcpListener::bind("127.0.0.1:0").await.unwrap();
+    let addr = listener.local_addr().unwrap();
+    let svc = raw::execution_service_server::ExecutionServiceServer::new(rollup.clone());
+    tokio::spawn(async move {
+        tonic::transport::Server::builder()
+            .add_service(svc)
+            .serve_with_incoming(tokio_stream::wrappers::TcpListenerStream::new(listener))
+            .await
+            .unwrap();
+    });
+    let url = format!("http://{addr}");
+    let max_len = vlog::env_u64("VERIF_WORD_LEN", 4) as usize;
+    // alphabet: soft / firm deliveries for the first three heights
+    let alphabet: Vec<(char, i64)> = vec![('S', 0), ('S', 1), ('S', 2), ('F', 0), ('F', 1), ('F', 2)];
+    let mut idx = 0u64;
+    for level in [CommitLevel::SoftAndFirm, CommitLevel::SoftOnly, CommitLevel::FirmOnly] {
+        for len in 1..=max_len {
+            for code in 0..alphabet.len().pow(len as u32) {
+                idx += 1;
+                if idx % shards != shard {
+                    continue;
+                }
+                let mut c = code;
+                let word: Vec<(char, i64)> = (0..len).map(|_| { let s = alphabet[c % alphabet.len()]; c /= alphabet.len(); s }).collect();
+                // soft-only never receives firm blocks and vice versa: such words are not deliverable by the readers
+                if level == CommitLevel::SoftOnly && word.iter().any(|(k, _)| *k == 'F') {
+                    continue;
+                }
+                if level == CommitLevel::FirmOnly && word.iter().any(|(k, _)| *k == 'S') {
+                    continue;
+                }
+                run_word(&log, &rollup, &url, level, 1, 1, 3, &word, 0, "exhaustive").await;
+            }
+        }
+    }
+    // random longer schedules: session offsets (soft ahead of firm at start), look-ahead, response delays, duplicates, stale, skips
+    let mut rng = ChaChaRng::seed_from_u64(vlog::seed().wrapping_mul(613) ^ 0xC10 ^ (shard << 20));
+    let n = vlog::env_u64("VERIF_RANDOM_WORDS", 150);
+    for _ in 0..n {
+        let level = [CommitLevel::SoftAndFirm, CommitLevel::SoftAndFirm, CommitLevel::SoftOnly, CommitLevel::FirmOnly][rng.gen_range(0..4)];
+        let firm0 = rng.gen_range(1..4u64);
+        let soft0 = firm0 + if rng.gen_bool(0.5) { 0 } else { rng.gen_range(1..3) };
+        let lookahead = rng.gen_range(1..6u64);
+        let len = rng.gen_range(3..14);
+        // offsets are relative to the lowest first-expected height; soft starts (soft0 - firm0) above it
+        let mut next_s = if level == CommitLevel::FirmOnly { 0 } else { (soft0 - firm0) as i64 };
+        let mut next_f = 0i64;
+        let mut word = vec![];
+        for _ in 0..len {
+            let soft_turn = match level {
+                CommitLevel::SoftOnly => true,
+                CommitLevel::FirmOnly => false,
+                CommitLevel::SoftAndFirm => rng.gen_bool(0.55),
+            };
+            let (kind, next) = if soft_turn { ('S', &mut next_s) } else { ('F', &mut next_f) };
+            let off = match rng.gen_range(0..10) {
+                0 => (*next - 1).max(0),          // duplicate of the last one
+                1 => (*next - 2).max(0),          // stale
+                2 => *next + 1,                   // skips one (out of order)
+                _ => {
+                    let o = *next;
+                    *next += 1;
+                    o
+                }
+            };
+            word.push((kind, off));
+        }
+        let delay = if rng.gen_bool(0.3) { rng.gen_range(1..6) } else { 0 };
+        run_word(&log, &rollup, &url, level, firm0, soft0, lookahead, &word, delay, "random").await;
+    }
+    log.end();
+}
